@@ -188,8 +188,15 @@ def stratum_vcf_input(rng, tmp, counters):
     doc.write(pv)
     outtag = rng.choice(["PS", "HP"])
     out = os.path.join(tmp, "out.vcf")
-    status, trace, msg = pipeline.run_phase(sim, out, phase_inputs=[pv], reference=False, tag=outtag)
-    desc = {"stratum": "vcf-input", "input_tag": intag, "output_tag": outtag, "interleave": interleave, "params": p,
+    more = {}
+    if rng.random() < 0.3:
+        # --ignore-read-groups (all reads are one sample's) must not change what a phased VCF contributes
+        more["ignore_read_groups"] = True
+        if len(p["samples"]) > 1:
+            more["samples"] = [rng.choice(p["samples"])]
+            blocks = {k: v for k, v in blocks.items() if k[1] in more["samples"]}
+    status, trace, msg = pipeline.run_phase(sim, out, phase_inputs=[pv], reference=False, tag=outtag, **more)
+    desc = {"stratum": "vcf-input", "input_tag": intag, "output_tag": outtag, "interleave": interleave, "params": p, "more": more,
             "blocks": {"%s/%s" % k: {str(b): v for b, v in bl.items()} for k, bl in blocks.items()}}
     if status == "cle":
         return [{"mech": "refused", "msg": msg}], False, desc
